@@ -141,7 +141,7 @@ def check(case, ctx):
         ctx.label("D-dtype:" + case.get("D_dtype", "float64"))
     with rewire.SwapRecorder() as rec:
         if latt:
-            o = ctx.call(fn, gen.layout(W.copy(), case.get("order")), case["itr"], D=(None if D is None else D.astype(case.get("D_dtype", "float64"))), seed=seed)
+            o = ctx.call(fn, gen.layout(W.astype(case.get("W_dtype", "float64")), case.get("order")), case["itr"], D=(None if D is None else D.astype(case.get("D_dtype", "float64"))), seed=seed)
         else:
             o = ctx.call(fn, gen.layout(W.copy(), case.get("order")), case["itr"], seed=seed)
     if o.status == "timeout":
@@ -220,13 +220,20 @@ def cases(draw, names, nmax):
         return {"fn": name, "kind": "reject-seq", "W": W, "itr": 1, "seed": seed, "cut": draw(st.integers(0, len(W) - 1))}
     if connected and not directed and draw(st.integers(0, 9)) == 0:
         # rejection inputs
-        why = draw(st.sampled_from(["disconnected", "asymmetric"]))
+        why = draw(st.sampled_from(["disconnected", "asymmetric", "nearly-symmetric"]))
         if why == "disconnected":
             m1 = draw(st.integers(2, max(2, nmax // 2)))
             m2 = draw(st.integers(2, max(2, nmax // 2)))
             A = gen.block_diag(draw(gen.tree_chords_adj(m1)), draw(gen.tree_chords_adj(m2)))
             A = rewire.shuffle(draw, A)
             W = draw(gen.weights_for(A, draw(st.sampled_from(["bin", "dyadic"])), False))
+        elif why == "nearly-symmetric":
+            # connected, symmetric support, one weight larger than its mirror by 1e-7 relative: not an undirected network
+            A, _ = draw(rewire.und_adj(5, min(nmax, 10), True))
+            A = rewire.shuffle(draw, A)
+            W = draw(gen.weights_for(A, "dyadic", False))
+            i, j = [int(v) for v in np.argwhere(np.triu(W, 1) != 0)[0]]
+            W[i, j] = W[i, j] * (1 + draw(st.sampled_from([1e-7, 2.0 ** -30, 1e-9])))
         else:
             A, _ = draw(rewire.dir_adj(4, min(nmax, 8), True))
             W = draw(gen.weights_for(A, "bin", True))
@@ -298,13 +305,18 @@ def cases(draw, names, nmax):
             D = np.zeros((n, n))
             for (i, j), v in zip(gen.pairs(n, False), vals):
                 D[i, j] = D[j, i] = v
+            if draw(st.integers(0, 2)) == 0:
+                D = 1.0 + D / 8.0          # distances that are not whole numbers (between 1 and 1.75)
+                case["D_fractional"] = True
             if directed and draw(st.booleans()):
                 # a distance-to-diagonal matrix of a directed layout need not be symmetric
                 up = draw(st.lists(st.integers(0, 6), min_size=n * (n - 1) // 2, max_size=n * (n - 1) // 2))
                 for (i, j), v in zip(gen.pairs(n, False), up):
                     D[j, i] = v
             case["D"] = D
-            case["D_dtype"] = draw(st.sampled_from(["uint8", "float64", "int64", "uint16", "float64"]))      # distances are often stored as small integers
+            case["D_dtype"] = "float64" if case.get("D_fractional") else draw(st.sampled_from(["uint8", "float64", "int64", "uint16", "float64"]))      # distances are often stored as small integers
+            if wk == "bin":
+                case["W_dtype"] = draw(st.sampled_from(["int64", "float64", "bool", "uint8"]))       # a 0/1 network in an integer / logical array
         else:
             case["D"] = None
     return case
